@@ -24,6 +24,7 @@ import (
 	coreblock "github.com/sourcenetwork/defradb/internal/core/block"
 	"github.com/sourcenetwork/defradb/internal/datastore"
 	"github.com/sourcenetwork/defradb/internal/db"
+	"github.com/sourcenetwork/defradb/node"
 )
 
 // ExecTimeout bounds a single request; exceeding it is reported as a hang.
@@ -86,7 +87,12 @@ func NewNode(ctx context.Context, name string, o Options) (*Node, error) {
 		opts = append(opts, db.WithNodeIdentity(o.Identity.Value()))
 	}
 	opts = append(opts, db.WithEnabledSigning(o.Signing))
-	d, err := db.NewDB(ctx, store, nac, docACP, nil, opts...)
+	// a lens registry is needed to reopen an existing database (db.initialize reloads the lenses)
+	lensReg, err := node.NewLens(ctx)
+	if err != nil {
+		return nil, err
+	}
+	d, err := db.NewDB(ctx, store, nac, docACP, lensReg, opts...)
 	if err != nil {
 		return nil, err
 	}
